@@ -18,6 +18,7 @@ import (
 	"go/ast"
 	"go/token"
 	"go/types"
+	"sort"
 	"strings"
 )
 
@@ -739,4 +740,334 @@ func ruleRangeStringDecode(c *Ctx, rule string) {
 	if n < 3 {
 		c.Ob(rule, "fast.Comp.rangeString/decode", fd, false, fmt.Sprintf("%d decoding closures found, 3 confirmed by reading (no value, direct store, through a hidden variable)", n))
 	}
+}
+
+// S4 — expression switch: the table used for direct dispatch and the order of clauses.
+//   * caseHelper.AllConst is monotone: assigned only `false` (it starts true in the literal built by Switch);
+//   * caseHelper.add records a constant in GotoMap only under `if AllConst`, and nothing else writes the
+//     elements of GotoMap or ConstMap: the dispatch table holds exactly the constants written before the first
+//     non-constant case expression, whose evaluation (and side effects) a direct jump would skip;
+//   * switchGotoMap / switchGotoSlice build their tables from GotoMap, never from ConstMap;
+//   * the jump into a default clause is emitted after every clause was compiled, to defaulti+1, and a default
+//     clause reached in sequence skips its own body (header jumps to the end index assigned after the body);
+//   * a case body ends with either the fall-through statement (only when its last statement is `fallthrough`
+//     and it is not the last clause) or the jump to the switch's Break target in the same frame.
+func ruleSwitchDispatch(c *Ctx, rule string) {
+	pk := c.P.Pkg("fast")
+	info := pk.TypesInfo
+	// monotone flag
+	w := fieldWriters(c, "fast", "caseHelper", "AllConst")
+	okMono, nw := true, 0
+	for k, nodes := range w {
+		for _, n := range nodes {
+			nw++
+			switch x := n.(type) {
+			case *ast.AssignStmt:
+				if len(x.Rhs) != 1 || exprString(x.Rhs[0]) != "false" {
+					okMono = false
+				}
+			case *ast.KeyValueExpr:
+				if exprString(x.Value) != "true" {
+					okMono = false
+				}
+			default:
+				okMono = false
+			}
+			_ = k
+		}
+	}
+	c.Ob(rule, "fast.caseHelper.AllConst/monotone", nil, okMono && nw >= 1, fmt.Sprintf("the all-case-expressions-so-far-are-constant flag is only ever cleared (%d writers)", nw))
+	// positional literals of caseHelper: third element true
+	nlit := 0
+	for _, fd := range c.P.FuncsOf("fast") {
+		if fd.Body == nil {
+			continue
+		}
+		ast.Inspect(fd.Body, func(n ast.Node) bool {
+			cl, ok := n.(*ast.CompositeLit)
+			if !ok || !isNamedType(info.TypeOf(cl), "fast", "caseHelper") {
+				return true
+			}
+			nlit++
+			good := false
+			if len(cl.Elts) == 3 {
+				if _, isKV := cl.Elts[0].(*ast.KeyValueExpr); !isKV {
+					good = exprString(cl.Elts[2]) == "true"
+				}
+			}
+			for _, el := range cl.Elts {
+				if kv, ok := el.(*ast.KeyValueExpr); ok && identOf(kv.Key) != nil && identOf(kv.Key).Name == "AllConst" {
+					good = exprString(kv.Value) == "true"
+				}
+			}
+			c.Ob(rule, funcKey(pk, fd)+"/caseHelper-literal", cl, good, "a switch starts with AllConst == true and empty maps")
+			return true
+		})
+	}
+	if nlit == 0 {
+		c.Ob(rule, "fast.caseHelper/literal", nil, false, "no caseHelper literal found: anchor missing")
+	}
+	// add: GotoMap written under AllConst only
+	add := c.P.Func("fast.caseHelper.add")
+	okAdd := false
+	if add != nil && add.Body != nil {
+		var stack []ast.Node
+		okAdd = true
+		found := false
+		ast.Inspect(add.Body, func(n ast.Node) bool {
+			if n == nil {
+				stack = stack[:len(stack)-1]
+				return true
+			}
+			stack = append(stack, n)
+			as, ok := n.(*ast.AssignStmt)
+			if !ok {
+				return true
+			}
+			for _, l := range as.Lhs {
+				ix, ok := unparen(l).(*ast.IndexExpr)
+				if !ok {
+					continue
+				}
+				if _, isG := fieldSel(info, ix.X, "GotoMap"); !isG {
+					continue
+				}
+				found = true
+				guarded := false
+				for _, a := range stack {
+					if ifs, ok := a.(*ast.IfStmt); ok && containsNode(ifs.Body, as) {
+						for _, at := range andAtoms(ifs.Cond) {
+							if _, isF := fieldSel(info, at, "AllConst"); isF {
+								guarded = true
+							}
+						}
+					}
+				}
+				if !guarded {
+					okAdd = false
+				}
+			}
+			return true
+		})
+		okAdd = okAdd && found
+	}
+	c.Ob(rule, "fast.caseHelper.add/initial-constant-segment", add, okAdd, "a constant enters the direct-dispatch table only while every earlier case expression was a constant")
+	// owners of the maps
+	for _, field := range []string{"GotoMap", "ConstMap"} {
+		ws := fieldWriters(c, "fast", "caseHelper", field)
+		var bad []string
+		for k := range ws {
+			if strings.HasSuffix(k, "#elem") && k != "fast.caseHelper.add#elem" {
+				bad = append(bad, k)
+			}
+			if !strings.Contains(k, "#") {
+				bad = append(bad, k)
+			}
+		}
+		sort.Strings(bad)
+		c.Ob(rule, "fast.caseHelper."+field+"/owner", nil, len(bad) == 0, fmt.Sprintf("only caseHelper.add stores into %s (other writers: %v)", field, bad))
+	}
+	// table builders read GotoMap only
+	for _, fk := range []string{"fast.Comp.switchGotoMap", "fast.Comp.switchGotoSlice"} {
+		fd := c.P.Func(fk)
+		if fd == nil || fd.Body == nil {
+			c.Ob(rule, fk, nil, false, "anchor function not found")
+			continue
+		}
+		readsGoto, readsConst := false, false
+		ast.Inspect(fd.Body, func(n ast.Node) bool {
+			if e, ok := n.(ast.Expr); ok {
+				if _, is := fieldSel(info, e, "GotoMap"); is {
+					readsGoto = true
+				}
+				if _, is := fieldSel(info, e, "ConstMap"); is {
+					readsConst = true
+				}
+			}
+			return true
+		})
+		c.Ob(rule, fk+"/source", fd, readsGoto && !readsConst, "the dispatch table is built from GotoMap (the initial constant segment), never from ConstMap (all constants)")
+	}
+	// default last, header
+	sw := c.P.Func("fast.Comp.Switch")
+	if sw == nil || sw.Body == nil {
+		c.Ob(rule, "fast.Comp.Switch", nil, false, "anchor function not found")
+		return
+	}
+	var loopEnd, jumpPos token.Pos
+	ast.Inspect(sw.Body, func(nd ast.Node) bool {
+		switch x := nd.(type) {
+		case *ast.RangeStmt:
+			calls := false
+			inspectCalls(x.Body, func(call *ast.CallExpr) {
+				if fn := calleeOf(info, call); fn != nil && fn.Name() == "switchCase" {
+					calls = true
+				}
+			})
+			if calls {
+				loopEnd = x.End()
+			}
+		case *ast.IfStmt:
+			if b, ok := unparen(x.Cond).(*ast.BinaryExpr); ok && b.Op == token.GEQ && identOf(b.X) != nil {
+				if v, isC := constInt(info, b.Y); isC && v == 0 {
+					jumps := false
+					ast.Inspect(x.Body, func(m ast.Node) bool {
+						if as, ok := m.(*ast.AssignStmt); ok && len(as.Rhs) == 1 {
+							if be, ok := unparen(as.Rhs[0]).(*ast.BinaryExpr); ok && be.Op == token.ADD && identOf(be.X) != nil && info.Uses[identOf(be.X)] == info.Uses[identOf(b.X)] {
+								if v, isC := constInt(info, be.Y); isC && v == 1 {
+									jumps = true
+								}
+							}
+						}
+						return true
+					})
+					if jumps && loopEnd != token.NoPos && x.Pos() > loopEnd {
+						jumpPos = x.Pos()
+					}
+				}
+			}
+		}
+		return true
+	})
+	c.Ob(rule, "fast.Comp.Switch/default-last", sw, jumpPos != token.NoPos, "the jump into the default clause (past its header) is emitted after every clause was compiled, wherever default is written")
+	sd := c.P.Func("fast.Comp.switchDefault")
+	okHdr := false
+	if sd != nil && sd.Body != nil {
+		var endVar types.Object
+		var endPos token.Pos
+		ast.Inspect(sd.Body, func(nd ast.Node) bool {
+			if as, ok := nd.(*ast.AssignStmt); ok && len(as.Lhs) == 1 && len(as.Rhs) == 1 && identOf(as.Lhs[0]) != nil && strings.HasSuffix(exprString(as.Rhs[0]), ".Code.Len()") {
+				endVar = info.Uses[identOf(as.Lhs[0])]
+				endPos = as.Pos()
+			}
+			return true
+		})
+		var bodyPos token.Pos
+		inspectCalls(sd.Body, func(call *ast.CallExpr) {
+			if fn := calleeOf(info, call); fn != nil && fn.Name() == "switchCaseBody" {
+				bodyPos = call.Pos()
+			}
+		})
+		ast.Inspect(sd.Body, func(nd ast.Node) bool {
+			if lit, ok := nd.(*ast.FuncLit); ok && endVar != nil && lit.Pos() < bodyPos && bodyPos < endPos {
+				ast.Inspect(lit.Body, func(m ast.Node) bool {
+					if as, ok := m.(*ast.AssignStmt); ok && len(as.Rhs) == 1 && identOf(as.Rhs[0]) != nil && info.Uses[identOf(as.Rhs[0])] == endVar {
+						okHdr = true
+					}
+					return true
+				})
+			}
+			return true
+		})
+	}
+	c.Ob(rule, "fast.Comp.switchDefault/header", sd, okHdr, "a default clause reached in sequence is skipped: its header, emitted before the body, jumps to the index assigned after the body")
+	// clause header: exactly one statement slot before the body, and fallthrough skips exactly that slot
+	slots := -1
+	for _, fk := range []string{"fast.Comp.switchCase", "fast.Comp.switchDefault"} {
+		fd := c.P.Func(fk)
+		if fd == nil || fd.Body == nil {
+			c.Ob(rule, fk+"/header-slot", nil, false, "anchor function not found")
+			continue
+		}
+		top, nested := 0, 0
+		var bodyPos token.Pos
+		inspectCalls(fd.Body, func(call *ast.CallExpr) {
+			if fn := calleeOf(info, call); fn != nil && fn.Name() == "switchCaseBody" {
+				bodyPos = call.Pos()
+			}
+		})
+		isAppend := func(call *ast.CallExpr) bool {
+			n := funcFullName(calleeOf(info, call))
+			return n == "fast.Comp.Append" || n == "fast.Comp.append"
+		}
+		for _, st := range fd.Body.List {
+			if es, ok := st.(*ast.ExprStmt); ok && st.Pos() < bodyPos {
+				if call, ok := es.X.(*ast.CallExpr); ok && isAppend(call) {
+					top++
+					continue
+				}
+			}
+			if st.Pos() < bodyPos {
+				ast.Inspect(st, func(n ast.Node) bool {
+					if _, isLit := n.(*ast.FuncLit); isLit {
+						return false
+					}
+					if call, ok := n.(*ast.CallExpr); ok && isAppend(call) {
+						nested++
+					}
+					return true
+				})
+			}
+		}
+		good := bodyPos != token.NoPos && top == 1 && nested == 0
+		if good {
+			if slots == -1 || slots == 1 {
+				slots = 1
+			}
+		} else {
+			slots = -2
+		}
+		c.Ob(rule, fk+"/header-slot", fd, good, fmt.Sprintf("the clause header occupies exactly one statement slot before the body on every path (%d unconditional, %d conditional appends)", top, nested))
+	}
+	ft := c.P.Func("fast.stmtFallthrough")
+	okFT := false
+	if ft != nil && ft.Body != nil && slots == 1 {
+		ast.Inspect(ft.Body, func(n ast.Node) bool {
+			if as, ok := n.(*ast.AssignStmt); ok && as.Tok == token.ADD_ASSIGN && len(as.Lhs) == 1 && len(as.Rhs) == 1 {
+				if _, isIP := fieldSel(info, as.Lhs[0], "IP"); isIP {
+					if v, isC := constInt(info, as.Rhs[0]); isC && int(v) == 1+slots {
+						okFT = true
+					}
+				}
+			}
+			return true
+		})
+	}
+	c.Ob(rule, "fast.stmtFallthrough/stride", ft, okFT, "fallthrough advances past itself and past the one-slot header of the next clause, into that clause's body")
+	// case body end
+	cb := c.P.Func("fast.Comp.switchCaseBody")
+	okEnd := false
+	if cb != nil && cb.Body != nil {
+		for _, st := range cb.Body.List {
+			ifs, ok := st.(*ast.IfStmt)
+			if !ok || ifs.Else == nil || identOf(ifs.Cond) == nil {
+				continue
+			}
+			ft, brk := false, false
+			inspectCalls(ifs.Body, func(call *ast.CallExpr) {
+				for _, a := range call.Args {
+					if o := usedObj(info, a); o != nil && o.Name() == "stmtFallthrough" {
+						ft = true
+					}
+				}
+			})
+			inspectCalls(ifs.Else, func(call *ast.CallExpr) {
+				if funcFullName(calleeOf(info, call)) == "fast.Comp.jumpOut" && len(call.Args) == 2 {
+					if tv, ok := info.Types[call.Args[0]]; ok && tv.Value != nil && tv.Value.String() == "0" {
+						if _, isB := fieldSel(info, call.Args[1], "Break"); isB {
+							brk = true
+						}
+					}
+				}
+			})
+			// the flag is the result of isFallthrough(last statement)
+			flagOK := false
+			if d := buildDefIndex(info, cb).defs[info.Uses[identOf(ifs.Cond)]]; len(d) > 0 {
+				for _, e := range d {
+					if e == nil {
+						continue
+					}
+					if call, ok := unparen(e).(*ast.CallExpr); ok {
+						if fn := calleeOf(info, call); fn != nil && fn.Name() == "isFallthrough" {
+							flagOK = true
+						}
+					}
+				}
+			}
+			if ft && brk && flagOK {
+				okEnd = true
+			}
+		}
+	}
+	c.Ob(rule, "fast.Comp.switchCaseBody/end", cb, okEnd, "a case body ends with the fall-through statement exactly when its last statement is `fallthrough`, otherwise with the jump to the switch's Break target in the same frame")
 }
